@@ -113,7 +113,7 @@ fn check_hist(h: &Hist) -> CaseResult {
 }
 
 /// Histories that also clone, drop and replace the cipher object: (op, block) with op 0 encrypt, 1 decrypt, 2 make a clone, use it once and drop it,
-/// 3 continue with a clone and drop the original, 4 move a clone into a thread that uses and drops it. Every answer is compared with the reference:
+/// 3 continue with a clone and drop the original, 4 move a clone into a thread that uses and drops it, 5 re-key in place with clone_from (the block is the new key). Every answer is compared with the reference:
 /// handles must be independent of each other's lifetime.
 #[derive(Serialize, Deserialize, Hash, Debug, Clone)]
 pub struct Life {
@@ -126,8 +126,18 @@ fn check_life(h: &Life) -> CaseResult {
     let r = rsm4::Sm4::new(&key);
     let mut lib = lib_new(&key)?;
     let mut lifecycle = 0;
+    let mut r = r;
     for (i, (op, b)) in h.ops.iter().enumerate() {
         let blk = arr16(b);
+        if op % 6 == 5 {
+            // re-key the object in place from an object made for another key (Clone::clone_from, as containers do element-wise)
+            let other = lib_new(&blk)?;
+            lib.clone_from(&other);
+            drop(other);
+            r = rsm4::Sm4::new(&blk);
+            lifecycle += 1;
+            continue;
+        }
         let want_e = r.encrypt(&blk);
         let use_once = |c: &gm_sm4::Sm4Cipher, what: &str| -> Result<(), Fail> {
             let got = lib_block(c, false, &blk)?;
@@ -136,7 +146,7 @@ fn check_life(h: &Life) -> CaseResult {
             }
             Ok(())
         };
-        match op % 5 {
+        match op % 6 {
             0 => use_once(&lib, if lifecycle > 0 { "object-after-a-clone-was-dropped" } else { "object" })?,
             1 => {
                 let got = lib_block(&lib, true, &blk)?;
@@ -370,9 +380,9 @@ pub fn run(ctx: &Ctx) {
 
     ctx.generated(
         "clone_and_drop_histories",
-        "vec((op, block), 2..16) on one cipher object where op is encrypt, decrypt, clone-use-drop, continue-with-the-clone-and-drop-the-original, clone-moved-into-a-thread: every answer == reference (handles may not depend on each other's lifetime)",
+        "vec((op, block), 2..16) on one cipher object where op is encrypt, decrypt, clone-use-drop, continue-with-the-clone-and-drop-the-original, clone-moved-into-a-thread, re-keyed-in-place-by-clone_from-from-an-object-with-another-key: every answer == reference for the key the object now holds (handles may not depend on each other's lifetime)",
         ctx.tier.pick(3_000, 60_000),
-        || (any16(), prop::collection::vec((0..5u8, any16()), 2..16)).prop_map(|(key, ops)| Life { key, ops }),
+        || (any16(), prop::collection::vec((0..6u8, any16()), 2..16)).prop_map(|(key, ops)| Life { key, ops }),
         check_life,
     );
 
